@@ -10,6 +10,10 @@ class MachineryError(Exception):
     pass
 
 
+# evidence and replay files of runs against a scratch tree (--repo other than /repo) go elsewhere
+OUT_ROOT = ROOT
+
+
 def setup_repo(repo):
     """Make `import optyx` resolve to <repo>/src and nothing else."""
     src = os.path.join(os.path.abspath(repo), 'src')
@@ -121,7 +125,7 @@ class Report:
                 hit.append((kf, ident))
             else:
                 new.append((ident, ex))
-        rdir = os.path.join(ROOT, 'replays', self.pid)
+        rdir = os.path.join(OUT_ROOT, 'replays', self.pid)
         os.makedirs(rdir, exist_ok=True)
         for f in os.listdir(rdir):
             os.unlink(os.path.join(rdir, f))
@@ -130,7 +134,7 @@ class Report:
             lines.append('KNOWN-FINDING: property=%s %s' % (self.pid, kf['what']))
         for ident, ex in new:
             h = hashlib.sha1(ident.encode()).hexdigest()[:12]
-            path = os.path.join(ROOT, 'replays', self.pid, h + '.json')
+            path = os.path.join(OUT_ROOT, 'replays', self.pid, h + '.json')
             json.dump({'property': self.pid, 'identity': ident, 'occurrences': self.counts[ident], 'example': ex},
                       open(path, 'w'), indent=1, default=str)
             lines.append('VIOLATION property=%s replay=%s' % (self.pid, path))
@@ -146,8 +150,8 @@ class Report:
               'coverage': self.cov, 'assumptions': self.assumptions,
               'wall_s': round(time.time() - self.t0, 2), 'violations': len(new),
               'known_findings_hit': [k['id'] for k, _ in hit]}
-        os.makedirs(os.path.join(ROOT, 'evidence'), exist_ok=True)
-        json.dump(ev, open(os.path.join(ROOT, 'evidence', self.pid + '.json'), 'w'), indent=1, default=str)
+        os.makedirs(os.path.join(OUT_ROOT, 'evidence'), exist_ok=True)
+        json.dump(ev, open(os.path.join(OUT_ROOT, 'evidence', self.pid + '.json'), 'w'), indent=1, default=str)
         for l in lines:
             print(l)
         print('%s %s: states=%d transitions=%d replayed=%d evaluations=%d nontrivial=%d violations=%d known=%d wall=%.1fs' % (
